@@ -1,4 +1,5 @@
 import BoltonsVerif.C18.Refine
+import BoltonsVerif.C18.Utf8
 import BoltonsVerif.Generated.C18_Consts
 /-
 C18 — helper lemmas used directly by Props.lean (queries, position bookkeeping, MultiFileReader reads).
@@ -75,6 +76,48 @@ theorem validB_insert_query (f : File Byte) (a b : List (Op Byte)) (q : Op Byte)
   refine ⟨hv.1, ?_⟩
   simp only [validB, Bool.and_eq_true]
   exact ⟨okB_query _ q hq, by rw [Spec.query_state _ _ q hq]; exact hv.2⟩
+
+/-! ### writelines -/
+
+/-- on the reference file `writelines(ss)` IS `write(join(ss))` -/
+theorem Spec.run_writelines [Inhabited α] (sem : LineSem α) (f : File α) (a b : List (Op α)) (ss : List (List α)) :
+    Spec.run sem f (a ++ .writelines ss :: b) = Spec.run sem f (a ++ .write ss.flatten :: b) := by
+  rw [Spec.run_append, Spec.run_append]; rfl
+
+theorem validB_writelines (f : File Byte) (a b : List (Op Byte)) (ss : List (List Byte)) :
+    validB f (a ++ .writelines ss :: b) = validB f (a ++ .write ss.flatten :: b) := by
+  rw [validB_append, validB_append]; rfl
+
+theorem validS_writelines (f : File Char) (a b : List (Op Char)) (ss : List (List Char)) :
+    validS f (a ++ .writelines ss :: b) = validS f (a ++ .write ss.flatten :: b) := by
+  rw [validS_append, validS_append]; rfl
+
+theorem SBytes.run_append (s : SBytes) (a b : List (Op Byte)) :
+    (s.run (a ++ b)).2 = ((s.run a).2.run b).2 := by
+  induction a generalizing s with
+  | nil => rfl
+  | cons op a ih => simp only [List.cons_append, SBytes.run]; exact ih _
+
+theorem SStr.run_append (s : SStr) (a b : List (Op Char)) :
+    (s.run (a ++ b)).2 = ((s.run a).2.run b).2 := by
+  induction a generalizing s with
+  | nil => rfl
+  | cons op a ih => simp only [List.cons_append, SStr.run]; exact ih _
+
+/-- the state after `writelines(ss)` is the state after the writes one by one -/
+theorem SBytes.writelines_as_writes (s : SBytes) (ss : List (List Byte)) :
+    (s.step (.writelines ss)).2 = (s.run (ss.map .write)).2 := by
+  show ss.foldl SBytes.write s = _
+  induction ss generalizing s with
+  | nil => rfl
+  | cons b ss ih => simp only [List.foldl_cons, List.map_cons, SBytes.run]; exact ih _
+
+theorem SStr.writelines_as_writes (s : SStr) (ss : List (List Char)) :
+    (s.step (.writelines ss)).2 = (s.run (ss.map .write)).2 := by
+  show ss.foldl SStr.write s = _
+  induction ss generalizing s with
+  | nil => rfl
+  | cons b ss ih => simp only [List.foldl_cons, List.map_cons, SStr.run]; exact ih _
 
 /-! ### position bookkeeping of SpooledStringIO -/
 
